@@ -71,6 +71,7 @@ func (o AuthOp) Sx() string {
 type AuthCase struct {
 	InMemory          bool // authorize the *Biscuit returned by Build/Append, without a wire round trip
 	Bulk              bool // content goes in through AddBlock(ParsedBlock) / AddAuthorizer(ParsedAuthorizer)
+	SplitOpts         bool // each limit in its own WithWorldOptions(...) option
 	MaxFacts, MaxIter int
 	Ctor              string // for | auth | verifier
 	Tokens            [][]Block
@@ -101,6 +102,9 @@ func (a AuthCase) Sx() string {
 	if a.Bulk {
 		mem += " (bulk)"
 	}
+	if a.SplitOpts {
+		mem += " (splitopts)"
+	}
 	return fmt.Sprintf("(case (limits %d %d) (ctor %s)%s %s %s (rx))", a.MaxFacts, a.MaxIter, ctor, mem, sxList("tokens", toks), sxList("ops", ops))
 }
 
@@ -117,6 +121,9 @@ func decAuthCase(cs *Sx) (AuthCase, error) {
 	}
 	if _, ok := cs.field("bulk"); ok {
 		a.Bulk = true
+	}
+	if _, ok := cs.field("splitopts"); ok {
+		a.SplitOpts = true
 	}
 	if c, ok := cs.field("ctor"); ok && len(c) == 1 {
 		a.Ctor = c[0].Atom
@@ -349,14 +356,22 @@ func authErrClass(err error) string {
 
 func newAuthorizer(tok *biscuit.Biscuit, a AuthCase) (biscuit.Authorizer, error) {
 	pub, _ := rootKeys()
-	opt := biscuit.WithWorldOptions(datalog.WithMaxFacts(a.MaxFacts), datalog.WithMaxIterations(a.MaxIter), datalog.WithMaxDuration(20*time.Second))
+	opts := []biscuit.AuthorizerOption{biscuit.WithWorldOptions(datalog.WithMaxFacts(a.MaxFacts), datalog.WithMaxIterations(a.MaxIter), datalog.WithMaxDuration(20*time.Second))}
+	if a.SplitOpts {
+		// the same limits, each supplied by its own option value
+		opts = []biscuit.AuthorizerOption{
+			biscuit.WithWorldOptions(datalog.WithMaxDuration(20 * time.Second)),
+			biscuit.WithWorldOptions(datalog.WithMaxFacts(a.MaxFacts)),
+			biscuit.WithWorldOptions(datalog.WithMaxIterations(a.MaxIter)),
+		}
+	}
 	switch a.Ctor {
 	case "auth":
-		return tok.Authorizer(pub, opt)
+		return tok.Authorizer(pub, opts...)
 	case "verifier":
-		return biscuit.NewVerifier(tok, opt)
+		return biscuit.NewVerifier(tok, opts...)
 	}
-	return tok.AuthorizerFor(biscuit.WithSingularRootPublicKey(pub), opt)
+	return tok.AuthorizerFor(biscuit.WithSingularRootPublicKey(pub), opts...)
 }
 
 func goAuthSeq(a AuthCase) (res string) {
@@ -544,7 +559,13 @@ func newScenGen(r *Rng, mode int) *scenGen {
 func (g *scenGen) fact() Pred {
 	n := Pick(g.r, g.preds)
 	p := Pred{Name: n}
-	for i := 0; i < g.arity[n]; i++ {
+	ar := g.arity[n]
+	if n != "members" && g.r.Chance(1, 12) {
+		// the same name with another arity: a different predicate as far as matching,
+		// de-duplication and printing are concerned
+		ar = varyArity(g.r, ar)
+	}
+	for i := 0; i < ar; i++ {
 		if n == "members" {
 			p.Terms = append(p.Terms, Pick(g.r, memberSets))
 		} else {
@@ -586,10 +607,21 @@ func (g *scenGen) queryFromPool() Rule {
 	return q
 }
 
+func varyArity(r *Rng, ar int) int {
+	if ar == 0 || r.Chance(1, 2) {
+		return ar + 1
+	}
+	return ar - 1
+}
+
 func (g *scenGen) atom() Pred {
 	n := Pick(g.r, g.preds)
 	p := Pred{Name: n}
-	for i := 0; i < g.arity[n]; i++ {
+	ar := g.arity[n]
+	if n != "members" && g.r.Chance(1, 15) {
+		ar = varyArity(g.r, ar)
+	}
+	for i := 0; i < ar; i++ {
 		if g.r.Chance(6, 10) {
 			p.Terms = append(p.Terms, V(Pick(g.r, g.vars)))
 		} else {
